@@ -6,8 +6,8 @@ CONSTANT MaxProofs = 3
 CONSTANT NInputs = 2
 CONSTANT NoRepeat = FALSE
 CONSTANT CheckRestore = FALSE
-CONSTANT Nondegenerate = TRUE
-CONSTANT Mutant = "gates"
+CONSTANT Nondegenerate = FALSE
+CONSTANT Mutant = "restore_swaps_index_pair"
 INIT Init
 NEXT Next
 INVARIANT TypeOK
